@@ -427,9 +427,11 @@ def run(F, tier, res):
             continue
         for i, c in F.calls(q):
             for a in c['args']:
-                rs = F.trace(q, a)
-                if not (any(r[0] == 'agg' and r[1][0] == 'adt' and r[1][1].endswith('Option') and r[1][3] == 'Some' for r in rs)
-                        and any(r[0] in ('param', 'local') and r[1] == sl[0] for r in rs)):
+                pa = a.get('move') or a.get('copy')
+                if not pa or pa['p'] or F.local_ty(q, pa['l']).replace(' ', '') != 'std::option::Option<usize>':
+                    continue
+                rs = F.trace(q, a, deep=True)
+                if not any(r[0] in ('param', 'local') and r[1] == sl[0] for r in rs):
                     continue
                 nh += 1
                 bad = _not_last_sources(F, q, a, sl[0])
